@@ -15,7 +15,7 @@ RULE = ('cases = LinearLayerTT(size_in,size_out,rank,dtype,initializer) with 1..
         'distinct = (sizes, rank, batch shape, dtype, initializer); non-trivial = non-zero reference output.')
 ASSUMPTIONS = ['cores are re-set to int-valued tensors in half of the cases so that forward can be compared bit-exactly in those']
 REQUIRED_REACH = ['nn:LinearLayerTT.__init__', 'nn:LinearLayerTT.forward', '_extras:randn']
-REQUIRED_COUNTS = {'batch>=4096-samples': 4, 'history:eval-update-forward': 5, 'history:no_grad-forward-first': 5, 'batchdims:0': 1, 'batchdims:1': 1, 'batchdims:2': 1, 'batchdims:3': 1, 'init:He': 1, 'init:Glo': 1, 'grad_checks': 10, 'invalid-initializer': 1}
+REQUIRED_COUNTS = {'batch>=4096-samples': 4, 'input>65536-entries-longest-batch-axis-not-first': 3, 'history:eval-update-forward': 5, 'history:no_grad-forward-first': 5, 'batchdims:0': 1, 'batchdims:1': 1, 'batchdims:2': 1, 'batchdims:3': 1, 'init:He': 1, 'init:Glo': 1, 'grad_checks': 10, 'invalid-initializer': 1}
 LINE_FUNCS = ['LinearLayerTT.forward', 'LinearLayerTT.__init__']
 
 
@@ -35,6 +35,11 @@ def cases(tier, seed):
         cs.append({'gen': 'layer', 'size_in': [rng.choice((1, 2, 3)) for _ in range(d)], 'size_out': [rng.choice((1, 2, 3)) for _ in range(d)],
                    'rank': gens.rank_profile(rng, d, 'rand', 3), 'dtype': ['f32', 'f64'][i % 2], 'init': ['He', 'Glo'][(i // 2) % 2],
                    'batch': [[4100], [70, 60], [17, 16, 16], [9001], [2, 3000], [1, 5000, 1], [65537], [300, 33]][i % 8], 'intvals': i % 3 != 0})
+    # large INPUTS (more than 65536 entries) whose longest batch axis is not the first one
+    for i in range(6 if tier == 'quick' else 36):
+        sin = [[4, 2, 2], [3, 3, 2], [2, 4, 3], [5, 4], [16], [2, 2, 2, 3]][i % 6]
+        cs.append({'gen': 'layer', 'size_in': sin, 'size_out': [rng.choice((1, 2, 3)) for _ in sin], 'rank': gens.rank_profile(rng, len(sin), 'rand', 3), 'dtype': ['f32', 'f64'][i % 2],
+                   'init': ['He', 'Glo'][(i // 2) % 2], 'batch': [[3, 3000], [2, 5, 900], [4, 2, 2100], [1, 5000, 1], [2, 4097], [3, 2, 1500]][(i + i // 6) % 6], 'intvals': i % 3 != 0})
     for i in range(4):
         cs.append({'gen': 'badinit', 'init': ['he', 'Xavier', '', None][i]})
     return cs
@@ -63,6 +68,8 @@ def run_layer(case, ctx, g):
     ctx.count('batchdims:%d' % len(batch))
     if dn.prod(batch) >= 4096:
         ctx.count('batch>=4096-samples')
+    if dn.prod(batch) * dn.prod(sin) > 65536 and len(batch) >= 2 and max(batch) != batch[0]:
+        ctx.count('input>65536-entries-longest-batch-axis-not-first')
     ctx.count('init:' + case['init'])
     key = 'layer/batch%d' % len(batch)
     layer = ctx.lib('LinearLayerTT', lambda: torchtt.nn.LinearLayerTT(sin, sout, rank, dtype=dt, initializer=case['init']))
